@@ -339,7 +339,7 @@ def valid_json_tokens():
 @st.composite
 def g3_json(draw):
     name = draw(st.sampled_from(sorted(member_value) + ["alg", "enc", "epk", "zip", "p2c", "crit", "iv", "tag"]))
-    return {"gen": "G3J", "idx": draw(st.integers(0, 15)), "edit": draw(st.sampled_from(["hdr-set", "hdr-set", "hdr-drop", "drop-optional", "str-replace", "protected-nonobject"])),
+    return {"gen": "G3J", "idx": draw(st.integers(0, 15)), "edit": draw(st.sampled_from(["hdr-set", "hdr-set", "hdr-drop", "drop-optional", "str-replace", "protected-nonobject", "entries-empty", "entries-dup", "entries-drop-first"])),
             "name": name, "value": _tame(draw(st.one_of(member_value[name], member_value[name], anyv))), "where": draw(st.integers(0, 5)),
             "str": draw(str_any), "nonobj": _tame(draw(jsonv.json_value(4)))}
 
@@ -378,6 +378,11 @@ def build_g3j(c):
         strs = [(x, k) for x in ([t] + entries) for k, v in x.items() if isinstance(v, str)]
         x, k = strs[c["where"] % len(strs)]
         x[k] = c["str"]
+    elif e.startswith("entries-"):
+        # the list of signatures / recipients itself: emptied, an entry repeated, the first entry gone (everything else stays valid)
+        lk = "signatures" if "signatures" in t else "recipients" if "recipients" in t else None
+        if lk:
+            t[lk] = [] if e == "entries-empty" else (t[lk] + [copy.deepcopy(t[lk][c["where"] % len(t[lk])])]) if e == "entries-dup" else t[lk][1:]
     elif e == "protected-nonobject":
         for x in ([t] + entries):
             if "protected" in x:
